@@ -86,6 +86,9 @@ func (u *Unit) callValue(st *State, fr *Frame, instr ssa.Instruction, fv Val, ar
 	}
 	fn := fv.Fn.Fn
 	u.callSiteClauses(st, fr, relName(fn), args, pos)
+	if fnKey(fn) == "fmt::Sprintf" && u.modelSprintf(st, fr, args, resv) {
+		return true
+	}
 	c := u.eng.contractFor(fn)
 	if c != nil && !c.Inline && !(u.contract.Opts["inline-all"] != "" && !c.Trusted && u.canInline(st, fn)) {
 		return u.callContract(st, fr, fn, c, args, fv.Fn.Bind, resv, pos)
@@ -229,16 +232,14 @@ func (u *Unit) checkPost(st *State, fr *Frame, rs []Val, pos token.Pos) {
 		u.oblige(st, "chan-abandon", "", goal, pos, "sends still owed by spawned goroutines fit into the channel buffer (no goroutine blocks forever)", u.contract.abandonProps(), "")
 	}
 	for i, c := range u.contract.Ensures {
-		t, err := u.evalBool(st, env, c.Expr)
-		if err != nil {
-			u.fail(fmt.Sprintf("%s: ensures %q: %v", c.Where, c.Src, err))
-			continue
-		}
 		label := c.Label
 		if label == "" {
 			label = fmt.Sprintf("%d", i+1)
 		}
-		u.oblige(st, "post", label, t, pos, "ensures "+c.Src, c.Props, c.Where)
+		if err := u.obligeClause(st, env, c.Expr, "post", label, pos, "ensures "+c.Src, c.Props, c.Where); err != nil {
+			u.fail(fmt.Sprintf("%s: ensures %q: %v", c.Where, c.Src, err))
+			continue
+		}
 	}
 	// reachability canary: one per return site (cover)
 	if st.discover == nil && !st.dead {
@@ -298,16 +299,14 @@ func (u *Unit) applyPre(st *State, c *FuncContract, env *SpecEnv, name string, p
 		if strings.HasPrefix(r.Label, "creator") {
 			continue
 		}
-		t, err := u.evalBool(st, env, r.Expr)
-		if err != nil {
-			u.fail(fmt.Sprintf("%s: requires %q at call: %v", r.Where, r.Src, err))
-			continue
-		}
 		label := r.Label
 		if label == "" {
 			label = fmt.Sprintf("%d", i+1)
 		}
-		u.oblige(st, "pre@"+name, label, t, pos, "requires "+r.Src, r.Props, r.Where)
+		if err := u.obligeClause(st, env, r.Expr, "pre@"+name, label, pos, "requires "+r.Src, r.Props, r.Where); err != nil {
+			u.fail(fmt.Sprintf("%s: requires %q at call: %v", r.Where, r.Src, err))
+			continue
+		}
 	}
 	return !st.dead
 }
@@ -1149,4 +1148,61 @@ var inlineExternal = map[string]bool{
 	"net/url::(Values).Has": true,
 	"net/url::(Values).Add": true,
 	"net/url::(Values).Set": true,
+}
+
+// modelSprintf: fmt.Sprintf with a literal format made of text and %s verbs whose arguments
+// are strings is the concatenation of the pieces (assumed semantics of fmt for %s on strings).
+func (u *Unit) modelSprintf(st *State, fr *Frame, args []Val, resv ssa.Value) bool {
+	if len(args) != 2 || resv == nil || len(args[0].Terms) != 1 || len(args[1].Terms) != 4 {
+		return false
+	}
+	var format string
+	found := false
+	if args[0].Terms[0] == "str_empty" {
+		found = true
+	}
+	for k, n := range u.eng.strLits {
+		if n == args[0].Terms[0] {
+			format, found = k, true
+		}
+	}
+	if !found {
+		return false
+	}
+	parts := strings.Split(format, "%s")
+	for _, p := range parts {
+		if strings.Contains(p, "%") {
+			return false
+		}
+	}
+	nverbs := len(parts) - 1
+	sl, ok := args[1].T.Underlying().(*types.Slice)
+	if !ok {
+		return false
+	}
+	b, o, ln, _ := sliceParts(args[1])
+	locs := u.elemLocs(sl.Elem(), b, "") // tag, val
+	if len(locs) != 2 {
+		return false
+	}
+	strTag := sInt(int64(u.eng.typeTag(types.Typ[types.String])))
+	var conds []Term
+	conds = append(conds, sEq(ln, sInt(int64(nverbs))))
+	res := u.eng.strLit(parts[len(parts)-1])
+	for k := nverbs - 1; k >= 0; k-- {
+		idx := fmt.Sprintf("(+ %s %d)", o, k)
+		lt, lv := locs[0], locs[1]
+		lt.idx, lv.idx = idx, idx
+		conds = append(conds, sEq(u.readLoc(st, lt), strTag))
+		piece := fmt.Sprintf("(unbox_Str %s)", u.readLoc(st, lv))
+		res = fmt.Sprintf("(scat %s %s)", piece, res)
+		if parts[k] != "" {
+			res = fmt.Sprintf("(scat %s %s)", u.eng.strLit(parts[k]), res)
+		}
+	}
+	r := u.freshVal(st, "sprintf", types.Typ[types.String])
+	st.assume(sImp(sAnd(conds...), sEq(r.Terms[0], res)))
+	fr.regs[resv] = r
+	u.trusted["model: fmt.Sprintf with %s verbs is concatenation"] = true
+	return true
 }
